@@ -73,7 +73,9 @@ func forgeries(ft, al *big.Int) []map[hint.ID]hint.Function {
 		var mu sync.Mutex
 		seen := 0
 		out = append(out, map[hint.ID]hint.Function{r1csx.NBitsID: r1csx.NBitsOf(func(x *big.Int, nb int) *big.Int {
-			if nb == 256 && x.Cmp(ft) == 0 {
+			// any wide decomposition of the value (256 bits as the code stands; a narrower one must still
+			// be answered only by the canonical representative), provided the alias fits the width asked for
+			if nb >= 200 && al.BitLen() <= nb && x.Cmp(ft) == 0 {
 				mu.Lock()
 				k := seen
 				seen++
@@ -125,6 +127,9 @@ func main() {
 			pert := []string{"none", "none", "hash", "start", "pre", "post", "id", "forge-pre", "forge-post", "forge-id", "forge-honest-hash"}[g.Intn(11)]
 			var forgeTarget, alias *big.Int
 			k := int64(1 + g.Intn(5))
+			if g.Chance(1, 2) {
+				k = 1 // the smallest alias: the one that fits the narrowest decomposition
+			}
 			switch pert {
 			case "hash":
 				p.InputHash.Add(&p.InputHash, big.NewInt(int64(1+g.Intn(3))))
